@@ -90,3 +90,127 @@ REG.contract('C01', IB, 'InterpreterBase.evaluate_plusassign', params={'self': B
                              'operator_call': {'returns': Obj, 'raises': ['MesonException']}, '_holderify': {'returns': Obj, 'raises': []}, 'set_variable': []},
              opaque_fns={'_unholder': ([Obj], Obj)}, floor=7,
              note='`name += value`: one evaluation of the right-hand side, one PLUS operator call on the current value of the name, the result made a new value object and bound to the name; the old value object is not modified (values are immutable: another name bound to it keeps seeing the old value)')
+
+# ---- the unary operators, the ternary, comparison / arithmetic / indexing: which operand is evaluated when, on which value
+# object the operator is called, with which other operand — and that the result is always the (holderified) operator result
+ME1 = {'evaluate_statement': {'returns': Opt(Obj), 'raises': ['MesonException']}, '_holderify': {'returns': Obj, 'raises': []},
+       'operator_call': {'returns': Obj, 'raises': ['MesonException']}}
+SETA = "[e for e in __trace__ if e[0] == 'setattr']"
+REST = "[e for e in __trace__ if e[0] not in ('evaluate_statement', 'operator_call', '_holderify', 'setattr')]"
+for fn, cls, mop in (('evaluate_notstatement', 'NotNode', 'NOT'), ('evaluate_uminusstatement', 'UMinusNode', 'UMINUS')):
+    REG.contract('C01', IB, f'InterpreterBase.{fn}', params={'self': BaseS, 'cur': Struct(cls, f'mesonbuild.mparser:{cls}', value=Obj)},
+                 ensures=[f"len({EVS}) == 1 and {EVS}[0][1] is cur.value",
+                          f"(result is {EVS}[0][-1] and len({OPC}) == 0 and len({HOL}) == 0) if isinst({EVS}[0][-1], Disabler) else "
+                          f"(len({OPC}) == 1 and {OPC}[0][1] is {EVS}[0][-1] and {OPC}[0][2] is MesonOperator.{mop} and {OPC}[0][3] is None "
+                          f"and len({HOL}) == 1 and {HOL}[0][1] is {OPC}[0][-1] and result is {HOL}[0][-1])",
+                          f"len({REST}) == 0",
+                          f"all(e[1] is {EVS}[0][-1] and e[2] == 'current_node' for e in {SETA})"],
+                 raises={'InvalidCodeOnVoid': 'True', 'MesonException': 'True'}, exact_raises=False, method_effects=ME1, floor=4,
+                 note=f'unary {mop}: the operand is evaluated once; a disabler passes through; otherwise the result is the holderified {mop} operator result of the operand (unary operators are applied once: the operand of the node, nothing else)')
+
+TernS = Struct('TernaryNode', 'mesonbuild.mparser:TernaryNode', condition=Obj, trueblock=Obj, falseblock=Obj)
+REG.contract('C01', IB, 'InterpreterBase.evaluate_ternary', params={'self': BaseS, 'node': TernS},
+             ensures=[f"{EVS}[0][1] is node.condition",
+                      # a disabler condition passes through and neither branch is evaluated
+                      f"(result is {EVS}[0][-1] and len({EVS}) == 1 and len({OPC}) == 0) if isinst({EVS}[0][-1], Disabler) else "
+                      # otherwise: ONE truth test of the condition, exactly ONE of the two branches evaluated, chosen by it; its value is the result
+                      f"(len({OPC}) == 1 and {OPC}[0][1] is {EVS}[0][-1] and {OPC}[0][2] is MesonOperator.BOOL and len({EVS}) == 2 "
+                      f"and {EVS}[1][1] is (node.trueblock if {OPC}[0][-1] else node.falseblock) and result is {EVS}[1][-1])",
+                      f"len({HOL}) == 0 and len({REST}) == 0",
+                      f"all(e[1] is {EVS}[0][-1] and e[2] == 'current_node' for e in {SETA})"],
+             raises={'MesonException': 'True'}, exact_raises=False, method_effects=ME1, floor=4,
+             note='c ? a : b — the condition is evaluated first and once, then exactly one of the two branches (single-branch evaluation), whose value is the result')
+
+# comparison: left operand first, then the right one; the operator named by the node is called ONCE — for `in` / `not in` on the
+# container (the right operand) with the unholdered left one, for every other comparison on the left operand with the unholdered
+# right one; the result is the holderified operator result.  One variant per operator (the operator table is read from the live module).
+_CMP = {'==': 'EQUALS', '!=': 'NOT_EQUALS', '<': 'LESS', '<=': 'LESS_EQUALS', '>': 'GREATER', '>=': 'GREATER_EQUALS', 'in': 'IN', 'not in': 'NOT_IN'}
+for _ct, _mop in _CMP.items():
+    _a, _b = (1, 0) if _mop in ('IN', 'NOT_IN') else (0, 1)
+    REG.contract('C01', IB, 'InterpreterBase.evaluate_comparison', variant=_mop,
+                 params={'self': BaseS, 'node': Struct('ComparisonNode', 'mesonbuild.mparser:ComparisonNode', ctype=Const(_ct), left=Obj, right=Obj)},
+                 ensures=[f"{EVS}[0][1] is node.left",
+                          f"(result is {EVS}[0][-1] and len({EVS}) == 1 and len({OPC}) == 0 and len({HOL}) == 0) if isinst({EVS}[0][-1], Disabler) else "
+                          f"(len({EVS}) == 2 and {EVS}[1][1] is node.right)",
+                          f"(result is {EVS}[1][-1] and len({OPC}) == 0 and len({HOL}) == 0) if (len({EVS}) == 2 and isinst({EVS}[1][-1], Disabler)) else True",
+                          f"(len({OPC}) == 1 and {OPC}[0][1] is {EVS}[{_a}][-1] and {OPC}[0][2] is MesonOperator.{_mop} and {OPC}[0][3] is fn__unholder({EVS}[{_b}][-1]) "
+                          f"and len({HOL}) == 1 and {HOL}[0][1] is {OPC}[0][-1] and result is {HOL}[0][-1]) "
+                          f"if (len({EVS}) == 2 and not isinst({EVS}[1][-1], Disabler)) else True",
+                          f"len({REST}) == 0",
+                          f"all(e[2] == 'current_node' for e in {SETA})"],
+                 raises={'MesonException': 'True'}, exact_raises=False, method_effects=ME1, opaque_fns={'_unholder': ([Obj], Obj)}, floor=5,
+                 note=f'`a {_ct} b`: operands evaluated left to right, once each; one {_mop} operator call ' + ('on the container b with the value of a' if _a else 'on a with the value of b') + '; comparisons are binary (the result of a comparison is a value like any other: nothing chains)')
+
+_ARI = {'+': 'PLUS', '-': 'MINUS', '*': 'TIMES', '/': 'DIV', '%': 'MOD'}
+for _ot, _mop in _ARI.items():
+    REG.contract('C01', IB, 'InterpreterBase.evaluate_arithmeticstatement', variant=_mop,
+                 params={'self': BaseS, 'cur': Struct('ArithmeticNode', 'mesonbuild.mparser:ArithmeticNode', operation=Const(_ot), left=Obj, right=Obj)},
+                 ensures=[f"{EVS}[0][1] is cur.left",
+                          f"(result is {EVS}[0][-1] and len({EVS}) == 1 and len({OPC}) == 0 and len({HOL}) == 0) if isinst({EVS}[0][-1], Disabler) else "
+                          f"(len({EVS}) == 2 and {EVS}[1][1] is cur.right)",
+                          f"(result is {EVS}[1][-1] and len({OPC}) == 0 and len({HOL}) == 0) if (len({EVS}) == 2 and isinst({EVS}[1][-1], Disabler)) else True",
+                          f"(len({OPC}) == 1 and {OPC}[0][1] is {EVS}[0][-1] and {OPC}[0][2] is MesonOperator.{_mop} and {OPC}[0][3] is fn__unholder({EVS}[1][-1]) "
+                          f"and len({HOL}) == 1 and {HOL}[0][1] is {OPC}[0][-1] and result is {HOL}[0][-1]) "
+                          f"if (len({EVS}) == 2 and not isinst({EVS}[1][-1], Disabler)) else True",
+                          f"len({REST}) == 0",
+                          f"all(e[1] is {EVS}[0][-1] and e[2] == 'current_node' for e in {SETA})"],
+                 raises={'InvalidCodeOnVoid': 'True', 'MesonException': 'True'}, exact_raises=False, method_effects=ME1, opaque_fns={'_unholder': ([Obj], Obj)}, floor=5,
+                 note=f'`a {_ot} b`: operands evaluated left to right, once each; one {_mop} operator call on the LEFT value with the unholdered right value (the left operand type decides the operation: strict typing is the holder\'s business)')
+
+IdxS = Struct('IndexNode', 'mesonbuild.mparser:IndexNode', iobject=Obj, index=Obj)
+REG.contract('C01', IB, 'InterpreterBase.evaluate_indexing', params={'self': BaseS, 'node': IdxS},
+             ensures=[f"{EVS}[0][1] is node.iobject",
+                      f"(result is {EVS}[0][-1] and len({EVS}) == 1 and len({OPC}) == 0 and len({HOL}) == 0) if isinst({EVS}[0][-1], Disabler) else "
+                      f"(len({EVS}) == 2 and {EVS}[1][1] is node.index and len({OPC}) == 1 and {OPC}[0][1] is {EVS}[0][-1] and {OPC}[0][2] is MesonOperator.INDEX "
+                      f"and {OPC}[0][3] is fn__unholder({EVS}[1][-1]) and len({HOL}) == 1 and {HOL}[0][1] is {OPC}[0][-1] and result is {HOL}[0][-1])",
+                      f"len({REST}) == 0",
+                      f"all(e[1] is {EVS}[0][-1] and e[2] == 'current_node' for e in {SETA})"],
+             raises={'InterpreterException': 'True', 'InvalidArguments': 'True', 'MesonException': 'True'}, exact_raises=False, method_effects=ME1,
+             opaque_fns={'_unholder': ([Obj], Obj)}, floor=4,
+             note='`a[i]`: the object first, then the index, once each; one INDEX operator call on the object with the unholdered index')
+
+# ---- `name = value`: one evaluation, then the NAME is bound — to a deep copy when the value is of a mutable kind, so that no later
+# operation on one name changes what another name sees
+AsgS = Struct('AssignmentNode', 'mesonbuild.mparser:AssignmentNode', var_name=Struct('IdNode', 'mesonbuild.mparser:IdNode', value=Str), value=Obj)
+BaseAS = Struct('InterpreterBase', 'mesonbuild.interpreterbase.interpreterbase:InterpreterBase', argument_depth=Int)
+DCP = "[e for e in __trace__ if e[0] == 'deepcopy']"
+REG.contract('C01', IB, 'InterpreterBase.assignment', params={'self': BaseAS, 'node': AsgS},
+             ensures=[f"len({EVS}) == 1 and {EVS}[0][1] is node.value",
+                      f"len({SV}) == 1 and {SV}[0][1] == node.var_name.value",
+                      f"(len({DCP}) == 1 and {DCP}[0][1] is {EVS}[0][-1] and {SV}[0][2] is {DCP}[0][-1]) "
+                      f"if ({EVS}[0][-1] is not None and isinst({EVS}[0][-1], MutableInterpreterObject)) "
+                      f"else (len({DCP}) == 0 and {SV}[0][2] is {EVS}[0][-1])",
+                      "len([e for e in __trace__ if e[0] not in ('evaluate_statement', 'set_variable', 'deepcopy')]) == 0"],
+             raises={'InvalidArguments': 'self.argument_depth != 0', 'MesonException': 'True'}, exact_raises=False,
+             method_effects={'evaluate_statement': {'returns': Opt(Obj), 'raises': ['MesonException']}, 'set_variable': {'raises': ['MesonException']}},
+             effects={'deepcopy': {'returns': Obj, 'raises': []}}, floor=4,
+             note='assignment inside an argument list is an error; otherwise the right-hand side is evaluated once and the name bound to it — to a deep copy if it is a mutable object')
+
+# ---- the variable store: reading a name changes nothing; binding a name changes that name and no other
+VarS = Struct('InterpreterBase', 'mesonbuild.interpreterbase.interpreterbase:InterpreterBase', builtin=Dict(Str, Obj), variables=Dict(Str, Obj))
+REG.contract('C01', IB, 'InterpreterBase.get_variable', params={'self': VarS, 'varname': Str},
+             ensures=['result is (self.builtin[varname] if varname in self.builtin else self.variables[varname])'],
+             raises={'InvalidCode': 'varname not in self.builtin and varname not in self.variables'},
+             opaque_fns={'get_close_matches': ([Str, Obj], List(Str))}, floor=3,
+             note='a builtin name wins, else the variable of that name, else an error; nothing is modified (automatic frame obligations)')
+REG.contract('C01', IB, 'InterpreterBase.set_variable', variant='plain', params={'self': VarS, 'varname': Str, 'variable': Obj, 'holderify': Const(False)},
+             requires=['isinst(variable, InterpreterObject)'],
+             ensures=['new(self).variables[varname] is variable',
+                      # for an ARBITRARY other name q (ghost parameter): bound afterwards iff bound before, to the same value object
+                      '(q in new(self).variables) == (q in self.variables) if q != varname else True',
+                      '(new(self).variables[q] is self.variables[q]) if (q != varname and q in self.variables) else True'],
+             raises={'InvalidCode': 'varname in self.builtin'}, modifies=['self.variables'], ghosts={'q': Str}, floor=3,
+             note='binding a name: that name maps to the given value object afterwards, every other name keeps its value object; builtin names cannot be rebound')
+
+# ---- a block: its statements are evaluated in order, each exactly once, nothing skipped (the loop of evaluate_codeblock)
+CBS = Struct('CodeBlockNode', 'mesonbuild.mparser:CodeBlockNode', lines=List(Obj))
+BaseCB = Struct('InterpreterBase', 'mesonbuild.interpreterbase.interpreterbase:InterpreterBase', current_node=Obj, source_root=Str, subdir=Str)
+REG.contract('C01', IB, 'InterpreterBase.evaluate_codeblock', params={'self': BaseCB, 'node': CBS, 'start': Const(0), 'end': Const(None)},
+             ensures=["len(evs) == len(node.lines)", "forall(Int, lambda k: implies(0 <= k and k < len(node.lines), evs[k] is node.lines[k]))"],
+             raises={'Exception': 'True'}, exact_raises=False,
+             on_raise=["len(evs) >= 1 and len(evs) <= len(node.lines)", "forall(Int, lambda k: implies(0 <= k and k < len(evs), evs[k] is node.lines[k]))"],
+             loops={0: Loop(invariant=["len(evs) == i", "forall(Int, lambda k: implies(0 <= k and k < i, evs[k] is statements[k]))", '0 <= i and i <= len(statements)'],
+                            locals={'i': Int, 'cur': Obj}, decreases='len(statements) - i')},
+             ghost_seqs={'evs': ('evaluate_statement', 1, Obj)}, opaque_attrs={'lineno': Int, 'colno': Int},
+             method_effects={'evaluate_statement': {'returns': Opt(Obj), 'raises': ['Exception']}}, floor=4,
+             note='the statements of a block are evaluated in source order, each exactly once; the first failing statement ends the block (no later statement runs)')
